@@ -46,7 +46,7 @@ func ParseFromSpec(s string) (*FromSpec, error) {
 				return nil, err
 			}
 		} else {
-			r.addrSpec, err = ParseAddrSpec(s[0 : pos+1])
+			r.addrSpec, err = ParseAddrSpec(s[0:pos])
 			if err != nil {
 				return nil, err
 			}
